@@ -175,7 +175,7 @@ func (s *sim) afterStep() {
 				}
 			}
 			switch {
-			case !owed || p.kills > 0:
+			case !owed || p.kills > 0 || p.killTried > 0:
 				p.obligFrom = time.Time{}
 			case p.obligFrom.IsZero():
 				p.obligFrom = now
